@@ -196,6 +196,20 @@ PROPS = {
                    "else it starts the next file; ids unique, open suffix iff current; exactly one callback per closed file with its id, true size and warcinfo id. Oracle on the implementation: scanner-whole files, warcinfo position/count/WARC-Filename, stamping, fit rule, suffixes at every step, callback arguments",
         level_note="Trusted: Lean kernel, correspondence harness and its independent scanner. Modelled by hand: warcfile.go singleWarcFileWriter.",
     ),
+    "C06": dict(
+        title="Truncated files: complete records survive and the cut is visible",
+        lean_modules=["Gowarc.Props.C06"],
+        n_quick=25, n_thorough=300,
+        required_theorems=["C06_survive", "C06_survive_cut", "C06_short_tail", "C06_cut_version_line", "readLoop_succ"],
+        model_assumptions=["C06_survive is relative to the codec law `ReadsAs` (each complete member reads as a clean record for every continuation); that gowarc's serialization satisfies it is C01's composition, here validated per file (`wf=t`: implementation and model read the uncut file as clean records at the generated boundaries)",
+                           "visibility is proved for the reader's own framing (fewer than five bytes left; cut inside the version line); cuts inside header lines, block, trailer and gzip members are decided by the exhaustive enumeration of every cut on implementation and model",
+                           "gzip (klauspost/compress) is the oracle Ω.gz: for every cut the harness hands the model the decompressor's verdict for each member (content prefix, clean/damaged end, compressed bytes consumed)",
+                           "n_quick / n_thorough count FILES; every prefix 0..length of every file is read (quick about 20 000 prefixes)"],
+        design_ref="DESIGN.md section 5, C06",
+        level_text="Model of WarcFileReader.Next in a loop over the unmarshal model; theorem for any number of records and any tail: members that read as clean records are returned clean, unaltered, at their offsets, and reading continues on the tail alone (so a cut never disturbs the complete records before it); "
+                   "visibility theorems for short tails and version-line cuts. Tie and remaining clauses: EVERY cut position of generated well-formed multi-record files (plain and per-record gzip, warn and strict, several spill thresholds) is read by implementation and model and compared, with survive / nothing-clean-after / visible / boundary judged on the implementation",
+        level_note="Trusted: Lean kernel, correspondence harness. Modelled by hand: unmarshaler.go, warcfile.go Next. Proof is partial for the visible and nothing-after clauses (see model_assumptions); exhaustive enumeration covers them on the generated files.",
+    ),
 }
 
 
